@@ -3,9 +3,9 @@ import KitModel.BroadcasterAccept
 Driver for property C11: `kitdrv C11` — state-set simulation of the broadcaster LTS.
 
 Input lines (one answer line each):
-* `reset variant=fixed|orig [reduce=0] [eager=0] [hooked=1]`  start a new trace from the initial state
+* `reset variant=fixed|orig [reduce=0] [eager=0] [hooked=1] [cap=<n>]`  start a new trace from the initial state
   (`hooked=1`: every Broadcast lock acquisition is reported by `ev k=bacq v=<n>`)
-* `ev k=bcall v=<n>` | `ev k=bret t=<ticket>` | `ev k=scall` | `ev k=sret h=<tag>` |
+* `ev k=bcall v=<n>` | `ev k=bret t=<ticket>` | `ev k=scall n=<channels>` | `ev k=sret h=<first tag>` |
   `ev k=cancel h=<tag>` | `ev k=recv h=<tag> v=<n>` | `ev k=ccall` | `ev k=cret`
   → `ok n=<size of the τ-closed state set>` or `reject at=<event> prev=<size> state=<one previous state>`
 * `stuck`                             → `stuck n=<k>`: number of states of the current set in which no
@@ -25,7 +25,7 @@ def parseObs (l : Line) : Option Obs :=
   | some "bcall" => (l.nat? "v").map .bcall
   | some "bacq" => (l.nat? "v").map .bacq
   | some "bret" => (l.nat? "t").map .bret
-  | some "scall" => some .scall
+  | some "scall" => some (.scall ((l.nat? "n").getD 1))
   | some "sret" => (l.nat? "h").map .sret
   | some "cancel" => (l.nat? "h").map .cancel
   | some "recv" => do let h ← l.nat? "h"; let x ← l.nat? "v"; pure (.recv h x)
@@ -37,19 +37,20 @@ def showPc : FPc → String
   | .idle => "idle" | .holding => "holding" | .exiting => "exiting" | .wantLock => "wantLock" | .done => "done"
 
 def showSub (u : Sub) : String :=
-  s!"[id:{u.id},tag:{u.tag},j:{u.joinedAt},buf:{showNats (u.buf.map (·.val))},hand:{showNats (u.hand.toList.map (·.val))},del:{showNats (u.delivered.map (·.val))},canc:{u.cancelled},exit:{u.exitClosed},in:{u.inList},pc:{showPc u.pc},missed:{u.missed}]"
+  s!"[id:{u.id},tag:{u.tag},call:{u.call},j:{u.joinedAt},buf:{showNats (u.buf.map (·.val))},hand:{showNats (u.hand.toList.map (·.val))},del:{showNats (u.delivered.map (·.val))},canc:{u.cancelled},exit:{u.exitClosed},in:{u.inList},pc:{showPc u.pc},missed:{u.missed}]"
 
 def showState (s : State) : String :=
   let bc := match s.bc with
     | some (e, pc) => s!"{e.val}@{pc}"
     | none => "-"
-  s!"bc:{bc};closed:{s.closed};closeCh:{s.closeCh};log:{showNats (s.log.map (·.val))};waitB:{showNats (s.waitB.map (·.val))};retB:{showNats (s.retB.map (·.1))};waitS:{showNats s.waitS};retS:{showNats s.retS};close:{s.closeNew}/{s.closePre}/{s.closePost}/{s.closeReturned};subs:{"".intercalate (s.subs.map showSub)}"
+  s!"bc:{bc};closed:{s.closed};closeCh:{s.closeCh};log:{showNats (s.log.map (·.val))};waitB:{showNats (s.waitB.map (·.val))};retB:{showNats (s.retB.map (·.1))};waitS:{showNats (s.waitS.map (·.1))};retS:{showNats s.retS};close:{s.closeNew}/{s.closePre}/{s.closePost}/{s.closeReturned};subs:{"".intercalate (s.subs.map showSub)}"
 
 structure DState where
   variant : Variant
   reduce : Bool
   hooked : Bool
   eager : Bool
+  cap : Nat
   cur : List State
   dead : Bool
 
@@ -63,15 +64,16 @@ def stepLine (d : DState) (line : String) : DState × String :=
     let reduce := l.get? "reduce" != some "0"
     let hooked := l.get? "hooked" == some "1"
     let eager := l.get? "eager" != some "0"
-    let a := startSet v reduce hooked eager cap
-    ({ variant := v, reduce, hooked, eager, cur := a.list, dead := false }, s!"ok n={a.size}")
+    let cp := (l.nat? "cap").getD cap
+    let a := startSet v reduce hooked eager cp
+    ({ variant := v, reduce, hooked, eager, cap := cp, cur := a.list, dead := false }, s!"ok n={a.size}")
   | "ev" =>
     match parseObs l with
     | none => (d, "error bad-event")
     | some o =>
       if d.dead then (d, "dead") else
-      let a := acceptStep d.variant d.reduce d.hooked d.eager cap d.cur o
-      if a.size > cap then
+      let a := acceptStep d.variant d.reduce d.hooked d.eager d.cap d.cur o
+      if a.size > d.cap then
         ({ d with cur := a.list, dead := true }, s!"overflow n={a.size}")
       else if a.size == 0 then
         let st := match d.cur with
@@ -85,6 +87,6 @@ def stepLine (d : DState) (line : String) : DState × String :=
   | _ => (d, "error unknown-op")
 
 def main (_args : List String) : IO UInt32 := do
-  Kit.lineLoop stepLine { variant := .fixed, reduce := true, hooked := false, eager := true, cur := (startSet .fixed true false true cap).list, dead := false }
+  Kit.lineLoop stepLine { variant := .fixed, reduce := true, hooked := false, eager := true, cap := cap, cur := (startSet .fixed true false true cap).list, dead := false }
   return 0
 end Driver.C11
